@@ -40,6 +40,9 @@ def mon(s, obs):
     if s.exc is not None or s.exit != 0:
         v.append(("env:run-failed", "cond run exited %r (%s): %s" % (s.exit, s.exc, obs.res.err_text[:200])))
         return v
+    for e in s.unknown:
+        v.append(("env:cond-name", "a process was spawned whose COND_NAME / working directory identify no task of the project: COND_NAME=%r cwd=%r argv=%r"
+                  % (e[3]["name"], e[3]["cwd"], e[3]["argv"])))
     for seq, node, info, pid in s.spawns:
         name = "t%d" % node
         # argv / shell
